@@ -113,6 +113,61 @@ Theorem C10_concat_of_singles_one_directory : forall body argv0 fs d ch stdin,
 Proof. exact scan_one_directory_stdout. Qed.
 Print Assumptions C10_concat_of_singles_one_directory.
 
+(* ---- no history: the output is a function of the enumerated (path, content) pairs ONLY ----
+   A scan describes many files in one process.  In the model nothing a file leaves behind can
+   reach the next one: (1) two scans - other trees, other argument lists, other standard input -
+   that enumerate the same (path, content) pairs print the same bytes; (2) the output is a
+   sequence of blocks, one per enumerated file, each a function [report_text body] of that
+   file's own path and content, and enumerations that are permutations of each other give the
+   permuted blocks; (3) replacing the contents of the files of a tree (by any function of the
+   content - swapping two siblings' contents is one) leaves paths and order as they are and
+   turns each block into the block of the same path with the new content.  An implementation
+   whose description of a file depends on the files before it (a remembered table row, a
+   budget that is not reset, a cache) must therefore disagree with the model on some tree. *)
+Theorem C10_output_of_enumeration_only : forall body argv0 fs1 d1 rest1 stdin1 fs2 d2 rest2 stdin2,
+  plain_arg d1 = true -> forallb (arg_ok fs1) (d1 :: rest1) = true ->
+  plain_arg d2 = true -> forallb (arg_ok fs2) (d2 :: rest2) = true ->
+  flat_map (arg_files fs1) (d1 :: rest1) = flat_map (arg_files fs2) (d2 :: rest2) ->
+  stdout_of body argv0 (fst (main_run repaired fs1 (bs "-r" :: d1 :: rest1) stdin1))
+  = stdout_of body argv0 (fst (main_run repaired fs2 (bs "-r" :: d2 :: rest2) stdin2)).
+Proof. exact scan_output_of_enumeration_only. Qed.
+Print Assumptions C10_output_of_enumeration_only.
+
+Theorem C10_output_blocks_permute : forall body argv0 fs1 d1 rest1 stdin1 fs2 d2 rest2 stdin2,
+  plain_arg d1 = true -> forallb (arg_ok fs1) (d1 :: rest1) = true ->
+  plain_arg d2 = true -> forallb (arg_ok fs2) (d2 :: rest2) = true ->
+  Permutation (flat_map (arg_files fs1) (d1 :: rest1)) (flat_map (arg_files fs2) (d2 :: rest2)) ->
+  exists blocks1 blocks2,
+    blocks1 = map (report_text body) (flat_map (arg_files fs1) (d1 :: rest1)) /\
+    blocks2 = map (report_text body) (flat_map (arg_files fs2) (d2 :: rest2)) /\
+    stdout_of body argv0 (fst (main_run repaired fs1 (bs "-r" :: d1 :: rest1) stdin1)) = concat blocks1 /\
+    stdout_of body argv0 (fst (main_run repaired fs2 (bs "-r" :: d2 :: rest2) stdin2)) = concat blocks2 /\
+    Permutation blocks1 blocks2.
+Proof. exact scan_blocks_permute. Qed.
+Print Assumptions C10_output_blocks_permute.
+
+Theorem C10_output_follows_contents : forall body argv0 g fs fs' d ch stdin stdin',
+  plain_arg d = true -> resolve fs d = SDir ch -> resolve fs' d = SDir (map (map_content g) ch) ->
+  (Z.of_nat (height_in ch) <= max_depth)%Z -> paths_ok_in ch d = true ->
+  stdout_of body argv0 (fst (main_run repaired fs [bs "-r"; d] stdin))
+  = concat (map (report_text body) (dfs_sorted_regular_files ch d)) /\
+  stdout_of body argv0 (fst (main_run repaired fs' [bs "-r"; d] stdin'))
+  = concat (map (fun pc => report_text body (fst pc, g (snd pc))) (dfs_sorted_regular_files ch d)).
+Proof. exact scan_follows_contents. Qed.
+Print Assumptions C10_output_follows_contents.
+
+Theorem C10_contents_swap_example :
+  let g := fun c => if bytes_eqb c (bs "1") then bs "2" else if bytes_eqb c (bs "2") then bs "1" else c in
+  map (map_content g) [Reg (bs "a") (bs "1"); Reg (bs "b") (bs "2"); Fifo (bs "p"); Reg (bs "c") (bs "3")]
+  = [Reg (bs "a") (bs "2"); Reg (bs "b") (bs "1"); Fifo (bs "p"); Reg (bs "c") (bs "3")].
+Proof. exact example_swap_contents. Qed.
+Print Assumptions C10_contents_swap_example.
+
+(* what the check's case runner evaluates (a concatenation without deep recursion) is [stdout_of] *)
+Theorem C10_runner_stdout : forall body argv0 es, stdout_tr body argv0 es = stdout_of body argv0 es.
+Proof. exact stdout_tr_eq. Qed.
+Print Assumptions C10_runner_stdout.
+
 Theorem C10_single_file_run : forall body argv0 q fs p c stdin,
   plain_arg p = true -> resolve fs p = SReg c ->
   main_run q fs [p] stdin = ([Report p c], Exit 0) /\
